@@ -39,7 +39,9 @@ def native_watch_case(seed, i, engine):
     sh = hist.Shadow()
     lines = [hist.cfg_line(engine)]
     lines += hist.gen_writes(r, sh, r.randint(2, 8), keys, p_ok=0.9)
-    start = 0 if i % 2 == 0 else hist.INIT + r.randint(1, max(1, sh.dealt - hist.INIT))
+    # from the next revision on (a watch from "now" = 0 may still be handed what the hub has not fanned out yet: the
+    # model has no such lag), or from a revision in the cache
+    start = sh.dealt + 1 if i % 2 == 0 else hist.INIT + r.randint(1, max(1, sh.dealt - hist.INIT))
     lines += ["bwatch w %s %d" % (hx(PREFIX + b"/"), start), "bdrain w"]
     lines += hist.gen_writes(r, sh, r.randint(2, 8), keys, p_ok=0.9)
     lines += ["bdrain w"]
